@@ -4,6 +4,7 @@ from hypothesis import strategies as st
 
 from vlib.gen import names as G
 from vlib.gen import rdata as R
+from vlib.ref import wire as W
 from vlib.runner import HarnessError, Part, Violation, exc_key
 
 ID = "C02"
@@ -47,6 +48,33 @@ def _check_typecodes():
 
 
 _checked = False
+
+
+def _names_in(obj, depth=0):
+    """all dns.name.Name values held by a record (fields, tuples, helper objects such as Gateway/Relay)"""
+    import dns.name
+
+    out = []
+    if isinstance(obj, dns.name.Name):
+        return [obj]
+    if depth > 3 or isinstance(obj, (bytes, str, int, float)) or obj is None:
+        return out
+    if isinstance(obj, (tuple, list)):
+        for v in obj:
+            out += _names_in(v, depth + 1)
+        return out
+    slots = []
+    for klass in type(obj).__mro__:
+        slots += list(getattr(klass, "__slots__", ()))
+    for k in slots + list(getattr(obj, "__dict__", {})):
+        if k in ("rdclass", "rdtype", "rdcomment"):
+            continue
+        try:
+            v = getattr(obj, k)
+        except AttributeError:
+            continue
+        out += _names_in(v, depth + 1)
+    return out
 
 
 def _roundtrip(rdclass, rdtype, w, origin, flags, label):
@@ -153,6 +181,18 @@ def run_grammar(case):
             rdo.to_wire()
         except dns.name.NeedAbsoluteNameOrOrigin:
             classes.append("relativized-names")
+        # every embedded name at or below the origin is held relative, every other one absolute
+        # (the algorithm names of TSIG/TKEY are never relativized: D21)
+        if "names" in case and tname not in ("TSIG", "TKEY"):
+            okey = W.name_key(G.unhexl(case["origin"]))
+            emitted = [G.unhexl(n) for n in case["names"]]
+            want_rel = sum(1 for n in emitted if W.name_key(n)[: len(okey)] == okey)
+            held = _names_in(rdo)
+            got_rel = sum(1 for n in held if not n.is_absolute())
+            if len(held) == len(emitted) and got_rel != want_rel:
+                raise Violation("origin", f"{tname}: {want_rel} of the embedded names {emitted!r} lie at or below the origin {case['origin']!r} but from_wire(origin=) holds {got_rel} relative names: {held!r}", "origin-relativity:" + tname)
+            if len(held) == len(emitted) and want_rel:
+                classes.append("relativity-checked")
     nontrivial = len(w) >= 1 and bool(flags & {"boundary", "name>=2"})
     return {"nontrivial": nontrivial, "classes": classes}
 
@@ -281,7 +321,7 @@ def arbitrary_cases(draw):
 def parts(tier):
     per_type = {"quick": 40, "thorough": 400}[tier]
     req = {("acc:" + t): per_type for t in R.ALL_TYPES}
-    req.update({"with-origin": 100, "relativized-names": 20, "normalizing": 20})
+    req.update({"with-origin": 100, "relativized-names": 20, "relativity-checked": 200, "normalizing": 20})
     n_types = len(R.ALL_TYPES)
     return [
         Part("grammar", run_grammar, strategy=grammar_cases(R.ALL_TYPES),
